@@ -1,7 +1,7 @@
 (* C01: exactly one correlated response per call, none per notification. *)
 From Coq Require Import List NArith ZArith Bool Arith Lia.
 From RecordUpdate Require Import RecordUpdate.
-From JV Require Import Bytes Msg SrvModel SrvLemmas SrvBasics.
+From JV Require Import Bytes Msg SrvModel SrvLemmas SrvBasics SrvC07.
 Import ListNotations.
 
 (** * C01.1: the shape of [responses] (pure) *)
@@ -373,4 +373,209 @@ Example c01_send_origin_nonvacuous :
 Proof.
   exists (st_of ex_cfg ex_tr_atdeliver). eexists _, _, _, _, _.
   split; [apply reach_st_of; vm_compute; discriminate|]. compute. split; [reflexivity|]. left; reflexivity.
+Qed.
+
+(** * The shape of a raw step on tasks and units *)
+Inductive raw_shape (s : state) (l : label) (s' : state) : Prop :=
+| RS_same : units s' = units s -> length (tasks s') = length (tasks s) -> raw_shape s l s'
+| RS_dequeue : s' = dequeue s -> raw_shape s l s'
+| RS_deliver u un : l = LRelDeliver u -> nth_error (units s) u = Some un -> u_st un = UAtDeliver ->
+    units s' = upd_nth u (fun x => x <| u_st := UFinished |>) (units s) ->
+    length (tasks s') = length (tasks s) -> raw_shape s l s'.
+
+Lemma raw_shape_ok s l s' os : inv s -> step_raw s l = Some (s', os) -> raw_shape s l s'.
+Proof.
+  intros I H. destruct (frame_label l) eqn:Fl.
+  { apply step_raw_frame in H as (C & _); auto. unfold core in C. injection C as T U _. apply RS_same; congruence. }
+  destruct (taskonly_label l) eqn:Tl.
+  { destruct (raw_taskonly _ _ _ _ I Tl H) as (U & _). destruct (raw_taskonly_used _ _ _ _ I Tl H) as (L & _).
+    apply RS_same; auto. }
+  destruct l; try discriminate Fl; try discriminate Tl; unfold step_raw in H.
+  - destruct (negb (running s) && (wg s =? 0)); [|discriminate]. injection H as <- <-. apply RS_same; auto.
+  - destruct (rd s) as [| |f|] eqn:Rd; try discriminate. injection H as H.
+    destruct f as [i|i|c].
+    3:{ cbn in H. destruct (stop_locked c s) as [s0 os0] eqn:St. injection H as <- <-.
+        apply stop_locked_spec in St as [(_ & -> & _)|(_ & _ & P)]; [apply RS_same; auto|].
+        destruct P. apply RS_same; cbn; auto. }
+    all: destruct (running s) eqn:Rn;
+      [ eapply read_cs_msg in H as (C & _); eauto; unfold core0 in C; injection C as T U _; apply RS_same; congruence
+      | cbn in H; rewrite Rn in H; cbn in H; injection H as <- <-; apply RS_same; auto ].
+  - destruct (dp s); try discriminate. injection H as <- <-. apply RS_dequeue; auto.
+  - destruct (dp s); try discriminate. injection H as <- <-. apply RS_same; auto.
+  - destruct (nth_error (units s) u) as [un|] eqn:E; [|discriminate].
+    destruct (u_st un) eqn:Su; try discriminate.
+    destruct (release_ids_spec (unit_tasks s u) s) as [_ _ L (Eu & _) _ _ _].
+    destruct (u_chok un); cbn in H; injection H as <- <-.
+    + eapply RS_deliver; eauto. cbn. rewrite Eu. auto.
+    + apply RS_same; auto.
+Qed.
+
+(* new tasks belong to new units *)
+Definition fresh_units (s s' : state) : Prop :=
+  forall k t, length (tasks s) <= k -> nth_error (tasks s') k = Some t -> length (units s) <= t_unit t.
+Definition ext2 (s s' : state) : Prop := ext s s' /\ fresh_units s s'.
+
+Lemma ext2_refl s : ext2 s s.
+Proof. split; [apply ext_refl|]. intros k t L E. apply nth_error_some_lt in E. lia. Qed.
+
+Lemma ext2_trans a b d : ext2 a b -> ext2 b d -> ext2 a d.
+Proof.
+  intros [[Ta Ua] Fa] [[Tb Ub] Fb]. split; [eapply ext_trans; split; eauto|].
+  intros k t L E. destruct (Nat.lt_ge_cases k (length (tasks b))) as [Lt|Ge].
+  - destruct (nth_error (tasks b) k) as [tb|] eqn:Eb; [|apply nth_error_None in Eb; lia].
+    destruct (Tb _ _ Eb) as (t2 & E2 & Le). rewrite E in E2. injection E2 as <-.
+    destruct Le as [Lu _ _ _ _ _ _ _ _]. rewrite Lu. eapply Fa; eauto.
+  - pose proof (list_ext_len _ _ _ Ua). specialize (Fb _ _ Ge E). lia.
+Qed.
+
+Lemma dequeue_fresh s : fresh_units s (dequeue s).
+Proof.
+  intros k t L E. unfold dequeue in E. destruct (inq s) as [|[b ms] q].
+  - destruct (running s); cbn in E; apply nth_error_some_lt in E; lia.
+  - cbn in E. rewrite nth_error_app2 in E by auto. apply nth_error_In, in_map_iff in E as (m & <- & _).
+    rewrite mk_task_unit. lia.
+Qed.
+
+Lemma raw_ext2 c s l s' os : reachf c s -> crash s = None -> step_raw s l = Some (s', os) -> ext2 s s'.
+Proof.
+  intros R _ H. pose proof (reachf_inv _ _ R) as I. split; [eapply raw_step_ok; eauto|].
+  destruct (raw_shape_ok _ _ _ _ I H) as [U L| -> |u un _ _ _ U L].
+  - intros k t Lk E. apply nth_error_some_lt in E. lia.
+  - apply dequeue_fresh.
+  - intros k t Lk E. apply nth_error_some_lt in E. lia.
+Qed.
+
+Lemma settle1_ext2 c s s' os : reachf c s -> settle1 s = Some (s', os) -> ext2 s s'.
+Proof.
+  intros R H. pose proof (reachf_inv _ _ R) as I. split; [eapply settle1_ok; eauto|].
+  apply settle1_inv in H. destruct H; try (intros k t Lk E; cbn in E; apply nth_error_some_lt in E; lia).
+  apply dequeue_fresh.
+Qed.
+
+Lemma step_ext2 c s l s' os : reachf c s -> step s l = Some (s', os) -> ext2 s s'.
+Proof. apply (lift_step c ext2 ext2_refl ext2_trans (raw_ext2 c) (settle1_ext2 c)). Qed.
+Lemma run_ext2 c tr s s' oss : reachf c s -> run s tr = Some (s', oss) -> ext2 s s'.
+Proof. apply (lift_run c ext2 ext2_refl ext2_trans (raw_ext2 c) (settle1_ext2 c)). Qed.
+
+(* whether a task contributes a response depends only on its id and its recorded error *)
+Lemma response_none_le t t' : task_le t t' -> (response_of t = None <-> response_of t' = None).
+Proof.
+  intros [_ Li _ _ Lp _ _ _ _]. unfold response_of, is_note. rewrite Li, Lp.
+  destruct (is_nil (t_id t)); [tauto|]. split; discriminate.
+Qed.
+
+Lemma silent_stable s s' u : ext2 s s' -> u < length (units s) ->
+  (responses (unit_tasks s u) = [] <-> responses (unit_tasks s' u) = []).
+Proof.
+  intros [[X _] Fr] Lu. rewrite !responses_nil_iff. unfold unit_tasks. split; intros H t Ht.
+  - apply filter_In in Ht as [It Ut]. apply Nat.eqb_eq in Ut. apply In_nth_error in It as [k Ek].
+    destruct (nth_error (tasks s) k) as [t0|] eqn:E0.
+    + destruct (X _ _ E0) as (t2 & E2 & Le). rewrite Ek in E2. injection E2 as <-.
+      apply (response_none_le _ _ Le). apply H. apply filter_In. split; [eapply nth_error_In; eauto|].
+      destruct Le as [Lun _ _ _ _ _ _ _ _]. apply Nat.eqb_eq. congruence.
+    + apply nth_error_None in E0. specialize (Fr _ _ E0 Ek). lia.
+  - apply filter_In in Ht as [It Ut]. apply Nat.eqb_eq in Ut. apply In_nth_error in It as [k Ek].
+    destruct (X _ _ Ek) as (t2 & E2 & Le). apply (response_none_le _ _ Le). apply H.
+    apply filter_In. split; [eapply nth_error_In; eauto|].
+    destruct Le as [Lun _ _ _ _ _ _ _ _]. apply Nat.eqb_eq. congruence.
+Qed.
+
+(* a unit waits at deliver only if it has something to say *)
+Definition inv_deliv (s : state) : Prop :=
+  forall u un, nth_error (units s) u = Some un -> u_st un = UAtDeliver -> responses (unit_tasks s u) <> [].
+
+Theorem reachf_inv_deliv c s : reachf c s -> inv_deliv s.
+Proof.
+  induction 1 as [|s l s' os R IH Cr H|s s' os R IH H].
+  - intros [|u] un E; discriminate.
+  - pose proof (reachf_inv _ _ R) as I. pose proof (raw_ext2 _ _ _ _ _ R Cr H) as X2.
+    intros u un' E' Su'.
+    assert (Old : exists un, nth_error (units s) u = Some un /\ u_st un = UAtDeliver).
+    { destruct (raw_shape_ok _ _ _ _ I H) as [U L| -> |v un _ Ev Sv U L].
+      - rewrite U in E'. eauto.
+      - unfold dequeue in E'. destruct (inq s) as [|[b ms] q]; [destruct (running s); cbn in E'; eauto|].
+        cbn in E'. destruct (Nat.lt_ge_cases u (length (units s))) as [Lt|Ge].
+        + rewrite nth_error_app1 in E' by auto. eauto.
+        + rewrite nth_error_app2 in E' by auto. destruct (u - length (units s)) as [|[|n]]; cbn in E'; try discriminate.
+          injection E' as <-. discriminate.
+      - rewrite U, nth_error_upd_nth in E'. destruct (Nat.eqb_spec v u) as [Evu|N]; eauto.
+        subst v. rewrite Ev in E'. cbn in E'. injection E' as <-. discriminate. }
+    destruct Old as (un & E & Su). intros Z. apply (IH _ _ E Su).
+    apply (silent_stable s s' u X2); auto. apply nth_error_some_lt in E. auto.
+  - pose proof (reachf_inv _ _ R) as I. pose proof (settle1_ext2 _ _ _ _ R H) as X2.
+    intros u un' E' Su' Z.
+    assert (Lu : u < length (units s)).
+    { apply settle1_inv in H. destruct H; cbn in E'; try (apply nth_error_some_lt in E'; rewrite ?upd_nth_length in E'; auto; fail).
+      unfold dequeue in E'. destruct (inq s) as [|[b ms] q]; [destruct (running s); cbn in E'; apply nth_error_some_lt in E'; auto|].
+      cbn in E'. destruct (Nat.lt_ge_cases u (length (units s))) as [Lt|Ge]; auto.
+      rewrite nth_error_app2 in E' by auto. destruct (u - length (units s)) as [|[|n]]; cbn in E'; try discriminate.
+      injection E' as <-. discriminate. }
+    apply (silent_stable s s' u X2) in Z; auto.
+    apply settle1_inv in H. destruct H; cbn in E'; try (eapply IH; eauto; fail).
+    + unfold dequeue in E'. destruct (inq s) as [|[b ms] q]; [destruct (running s); cbn in E'; eapply IH; eauto|].
+      cbn in E'. rewrite nth_error_app1 in E' by auto. eapply IH; eauto.
+    + rewrite nth_error_upd_nth in E'. destruct (Nat.eqb_spec u0 u) as [->|N]; [|eapply IH; eauto].
+      rewrite H1 in E'. cbn in E'. injection E' as <-. discriminate.
+    + rewrite nth_error_upd_nth in E'. destruct (Nat.eqb_spec i u) as [->|N]; [|eapply IH; eauto].
+      rewrite H0 in E'. cbn in E'. injection E' as <-. discriminate.
+    + rewrite nth_error_upd_nth in E'. destruct (Nat.eqb_spec i u) as [->|N]; [|eapply IH; eauto].
+      congruence.
+Qed.
+
+(** * C01.5: a message with nothing to report produces no output at all *)
+Theorem c01_silent_unit c s u un tr s' oss : reach c s -> nth_error (units s) u = Some un ->
+  responses (unit_tasks s u) = [] -> run s tr = Some (s', oss) ->
+  responses (unit_tasks s' u) = [] /\
+  (forall un', nth_error (units s') u = Some un' -> u_st un' <> UAtDeliver) /\
+  countb (is_deliver u) tr = 0.
+Proof.
+  intros R0 E Z H. pose proof (reach_reachf _ _ R0) as R.
+  assert (R' : reachf c s') by (apply reach_reachf; eapply run_reach; eauto).
+  assert (Lu : u < length (units s)) by (eapply nth_error_some_lt; eauto).
+  assert (Z' : responses (unit_tasks s' u) = []).
+  { apply (silent_stable s s' u); auto. eapply run_ext2; eauto. }
+  split; auto. split.
+  - intros un' E' Su'. exact (reachf_inv_deliv c s' R' u un' E' Su' Z').
+  - clear Z' E R' R0. revert s s' oss R Z Lu H. induction tr as [|l r IH]; intros s s' oss R Z Lu H; auto.
+    cbn in H. destruct (step s l) as [[s1 os]|] eqn:St; [|discriminate].
+    destruct (run s1 r) as [[s2 oss2]|] eqn:Rn; [|discriminate].
+    assert (R1 : reachf c s1) by (eapply step_reachf; eauto).
+    pose proof (step_ext2 _ _ _ _ _ R St) as X2.
+    assert (Z1 : responses (unit_tasks s1 u) = []) by (apply (silent_stable s s1 u); auto).
+    assert (Lu1 : u < length (units s1)).
+    { destruct X2 as [[_ Xu] _]. pose proof (list_ext_len _ _ _ Xu). lia. }
+    cbn [countb]. rewrite (IH _ _ _ R1 Z1 Lu1 Rn).
+    destruct (is_deliver u l) eqn:D; auto. exfalso.
+    destruct l; try discriminate D. cbn in D. apply Nat.eqb_eq in D. subst u0.
+    unfold step in St. destruct (crash s); [discriminate|]. unfold step_raw in St.
+    destruct (nth_error (units s) u) as [un0|] eqn:E; [|discriminate].
+    destruct (u_st un0) eqn:Su; try discriminate.
+    apply (reachf_inv_deliv c s R u un0 E Su Z).
+Qed.
+
+(* such a unit leaves URunning only to UFinished *)
+Theorem c01_silent_unit_step c s u un l s' os un' : reach c s -> nth_error (units s) u = Some un ->
+  responses (unit_tasks s u) = [] -> u_st un = URunning -> step s l = Some (s', os) ->
+  nth_error (units s') u = Some un' -> u_st un' = URunning \/ u_st un' = UFinished.
+Proof.
+  intros R E Z Su H E'.
+  assert (Hr : run s [l] = Some (s', [os])) by (cbn; rewrite H; auto).
+  destruct (c01_silent_unit _ _ _ _ _ _ _ R E Z Hr) as (_ & Nd & _). specialize (Nd _ E').
+  apply reach_reachf in R. destruct (step_unit_le _ _ _ _ _ _ _ R H E) as (un2 & E2 & Le).
+  rewrite E' in E2. injection E2 as <-. destruct Le as [_ _ _ Rk]. rewrite Su in Rk.
+  destruct (u_st un'); cbn in Rk; auto; try lia. congruence.
+Qed.
+
+(* a message that consists of valid notifications only: its unit finishes without a deliver step *)
+Definition ex_tr_note : list label :=
+  [LStart; LRelNext; LFeed (FMsg (InMsgs true [ex_note [91;93]%N])); LRelRead; LRelBarrier; LRelAcquire 0;
+   LGate [91;93]%N (ORes [50%N])].
+
+Example c01_silent_unit_nonvacuous :
+  exists s un s' oss, reach ex_cfg s /\ nth_error (units s) 0 = Some un /\ u_st un = URunning /\
+    responses (unit_tasks s 0) = [] /\ run s [LRelHandled 0] = Some (s', oss) /\
+    option_map u_st (nth_error (units s') 0) = Some UFinished /\ oss = [[]].
+Proof.
+  exists (st_of ex_cfg ex_tr_note). eexists _, _, _.
+  split; [apply reach_st_of; vm_compute; discriminate|]. compute. repeat split; reflexivity.
 Qed.
